@@ -6,6 +6,7 @@ pub mod c11;
 pub mod c12;
 pub mod c13;
 pub mod c16;
+pub mod c17;
 pub mod c18;
 pub mod svgcheck;
 
@@ -32,6 +33,7 @@ pub fn run(ctx: &Ctx) -> Option<Collector> {
         "C12" => c12::run(ctx),
         "C13" => c13::run(ctx),
         "C15" => basic::c15(ctx),
+        "C17" => c17::run(ctx),
         "C18" => c18::run(ctx),
         _ => return None,
     })
@@ -39,6 +41,9 @@ pub fn run(ctx: &Ctx) -> Option<Collector> {
 
 /// replay of case kinds that belong to one property only
 pub fn replay_other(prop: &str, kind: &str, case: &serde_json::Value) -> Result<Vec<(String, String)>, String> {
+    if kind == "wasm" || kind == "wasm-qr" {
+        return c17::replay(case);
+    }
     if kind == "raster" {
         return c13::replay(case);
     }
